@@ -439,6 +439,10 @@ func c15InProcess(c *Ctx) {
 			c15ManySubnets(c)
 			return
 		}
+		if json.Unmarshal(c.Replay.Case, &cs) == nil && cs.Fn == "c15AfterGC" {
+			c15AfterGC(c)
+			return
+		}
 		if json.Unmarshal(c.Replay.Case, &cs) != nil || cs.Fn != "c15InProcess" {
 			return
 		}
@@ -449,6 +453,7 @@ func c15InProcess(c *Ctx) {
 	parallelFor(n, 0, func() bool { return c.ViolationCount() >= 20 }, func(idx int) { c15One(c, idx) })
 	c15Concurrent(c)
 	c15ManySubnets(c)
+	c15AfterGC(c)
 }
 
 func c15One(c *Ctx, idx int) {
@@ -786,5 +791,50 @@ func c15ManySubnets(c *Ctx) {
 			return
 		}
 		c.Ev.Distinct("many-subnets", others, v6)
+	}
+}
+
+// c15AfterGC: a slow-refill configuration (limit 1, burst 1000: a bucket takes 1000 s to fill). Fifty
+// subnets spend their burst two minutes ago (virtual time: the history begins 120 s in the past), a
+// pass of the garbage collector removes their idle entries, then fifty subnets nobody has ever seen
+// ask for 600 each, now. A fresh subnet has a full bucket - whatever was left over by subnets that
+// are long gone is none of its business.
+func c15AfterGC(c *Ctx) {
+	for rep := 0; rep < c.N(2, 10); rep++ {
+		lim := limiter.NewClientLimiter(limiter.ClientLimiterOpts{Limit: 1, Burst: 1000})
+		past := time.Now().Add(-120 * time.Second)
+		for i := 0; i < 50; i++ {
+			a := netip.AddrFrom4([4]byte{10, 200, byte(i), 1})
+			for k := 0; k < 10; k++ {
+				lim.AllowN(a, past, 100) // 1000 spent
+			}
+		}
+		lim.VerifGC()
+		now := time.Now()
+		short, first := 0, ""
+		for i := 0; i < 50; i++ {
+			a := netip.AddrFrom4([4]byte{10, byte(100 + rep), byte(i), 7})
+			admitted := 0
+			for k := 0; k < 6; k++ {
+				if lim.AllowN(a, now, 100) {
+					admitted += 100
+				}
+			}
+			c.Ev.Eval(1)
+			if admitted < 600 {
+				short++
+				if first == "" {
+					first = fmt.Sprintf("%s was admitted %d of the 600 it asked for", a, admitted)
+				}
+			}
+		}
+		lim.Close()
+		c.Ev.Count("after_gc_fresh_subnets", 50)
+		if short > 0 {
+			c.Violation("isolation:fresh-subnet-after-gc", fmt.Sprintf("limit 1 burst 1000: fifty subnets spent their burst 120 s ago and were removed by the garbage collector; of fifty subnets never seen before, %d were refused below their burst at first contact (%s): they inherited what other subnets had left", short, first),
+				map[string]any{"fn": "c15AfterGC", "rep": rep, "short": short})
+			return
+		}
+		c.Ev.Distinct("after-gc", rep)
 	}
 }
